@@ -2,14 +2,15 @@
 import copy
 import itertools
 import json
+import re
 
 from .. import gen, opcorr
 from ..core import obs_of
 from ..rng import Rng
 
 ASSUMPTIONS = [
-    "the reference interpretation covers steps, sequential acts (irq/msg), branches with if/else, conditional steps and acts; needs, backward next and mixed "
-    "steps are compared with the operational model only (interpretation notes in DESIGN C04)",
+    "the reference interpretation covers steps, sequential acts (irq/msg), branches with if / else / needs (needs lists over condition branches of the same step), "
+    "conditional steps and acts; backward next and mixed steps are compared with the operational model only (interpretation notes in DESIGN C04)",
     "thread scheduling is exercised as (a) every release order the stepped harness draws and (b) free-running runs on 1..8 worker threads; it is not enumerated exhaustively",
 ]
 
@@ -33,7 +34,7 @@ def permute_branches(w, rng):
 def gen_base(seed, i, tier):
     rng = Rng(seed * 3267000013 + i)
     g = gen.WfGen(rng.fork("wf"), depth=rng.pick([1, 2, 2, 3]), max_steps=rng.range(1, 4), max_branches=3, max_acts=rng.range(1, 3), p_if=25,
-                  p_branches=50, needs=False, mixed=False, two_else=False, act_kinds=((gen.IRQ, 5), (gen.MSG, 2)))
+                  p_branches=50, needs="cond" if i % 3 == 0 else False, mixed=False, two_else=False, act_kinds=((gen.IRQ, 5), (gen.MSG, 2)))
     return g.workflow("m1"), g.exprs, rng
 
 
@@ -120,6 +121,8 @@ def run_batch(ctx, bases, stats):
         if not isinstance(rf, dict) or not rf.get("in_fragment"):
             continue
         stats["in_fragment"] += 1
+        if '"needs"' in json.dumps(sc["models"][0]):
+            stats["with_needs"] += 1
         bad = False
         for (i, d), pt in zip(pts, rf.get("points", [])):
             stats["points"] += 1
@@ -138,6 +141,8 @@ def run_batch(ctx, bases, stats):
         if pts:
             final = sorted((t["nid"], t["state"]) for t in pts[-1][1]["tasks"])
             stats["branches_taken"] += sum(1 for a, b in final if a.startswith("b") and b == "completed")
+            needs_ids = set(re.findall(r'"id": "(b\d+)"[^{}]*?"needs"', json.dumps(sc["models"][0])))
+            stats["needs_branch_ran"] += sum(1 for a, b in final if a in needs_ids and b == "completed")
             key = sc["id"].rsplit("-v", 1)[0]
             # variants are compared on their outcome: a run whose answer budget ended with interrupts still open has none yet
             if not any(b in ("interrupted", "running", "ready", "pending", "none") for a, b in final):
@@ -165,7 +170,7 @@ def run_batch(ctx, bases, stats):
 def run(ctx):
     ctx.check_theorems("ActsModel.Props.C04")
     n = 70 if ctx.tier == "quick" else 1200
-    stats = {"scenarios": 0, "in_fragment": 0, "points": 0, "free_running": 0, "op_model_agree": 0, "branches_taken": 0, "else_taken": 0}
+    stats = {"scenarios": 0, "in_fragment": 0, "points": 0, "free_running": 0, "op_model_agree": 0, "branches_taken": 0, "else_taken": 0, "with_needs": 0, "needs_branch_ran": 0}
     first = None
     chunk = 60          # base workflows per batch: the observations of a batch are dropped before the next one is run
     for lo in range(0, n, chunk):
@@ -178,9 +183,9 @@ def run(ctx):
                                                                              "all branch permutations x schedules x worker counts of one (workflow, inputs) end alike", "stepped runs vs Op model"]}
     ctx.cov["rule"] = ("workflows of the bounded grammar (depth<=3, <=4 steps, <=3 branches, <=3 acts, conditions over x,y in 0..3), each with several input valuations, "
                        "branch permutations, FIFO/LIFO/random release orders and free-running runs on 1/2/4/8 workers; non-trivial = some branch ran and something was skipped; distinct by (model, inputs)")
-    ctx.cov["clauses_proved"] = ["independence of branch declaration order (done / opens / states up to permutation)", "else runs iff no sibling condition held",
+    ctx.cov["clauses_proved"] = ["independence of branch declaration order (done / opens / states up to permutation)", "else runs iff no sibling condition held", "a needs-branch is pending until a needed sibling has ended, then runs (needs_branch_waits, needs_started_after_needed)",
                                  "step starts after predecessor is terminal; acts sequential; skipped step/act hands over", "determinism (by construction)"]
-    ctx.cov["clauses_not_proved"] = ["the engine refines Ref (compared node by node at every quiescent point)", "needs / backward next (Op model only)"]
+    ctx.cov["clauses_not_proved"] = ["the engine refines Ref (compared node by node at every quiescent point)", "backward next, needs lists that name waiting branches (Op model only)"]
 
 
 def replay(ctx, data):
